@@ -12,6 +12,14 @@ func (self *Transformer) stmtCanControlLoop(node ast.AnalyzedStatement) bool {
 	switch node.Kind() {
 	case ast.TypeDefinitionStatementKind:
 		return false
+	case ast.TriggerStatementKind:
+		node := node.(ast.AnalyzedTriggerStatement)
+		for _, arg := range node.TriggerArguments.List {
+			if self.exprCanControlLoop(arg.Expression) {
+				return true
+			}
+		}
+		return false
 	case ast.LetStatementKind:
 		node := node.(ast.AnalyzedLetStatement)
 		return self.exprCanControlLoop(node.Expression)
